@@ -33,6 +33,10 @@ pub fn big_gcd<const N: usize>(n: &BUint<N>, p: &BUint<N>) -> BUint<N> {
 pub fn inv_mod<const N: usize>(n: &BUint<N>, p: &BUint<N>) -> Result<BUint<N>, BUint<N>> {
     assert!(!p.is_zero());
     if n.is_zero() {
+        // gcd(0, p) = p: zero is invertible only modulo 1 (and its inverse is 0).
+        if *p == BUint::ONE {
+            return Ok(BUint::ZERO);
+        }
         return Err(*p);
     }
     let (d, u, _) = gcd_internal::<N, true>(n, p);
